@@ -45,6 +45,7 @@ type c15Mod struct {
 	factories []string // globals for which a pub function mk_<global>() returns a closure that marks and returns it
 	hasApply  bool     // pub fn apply_<mod>(cb: fn() -> str) -> str { cb() }
 	boom      string   // "-" or the global that pub fn boom<mod>() prints and marks before it throws ("" = no such function)
+	first     string   // verbatim source placed before everything else
 	extra     string   // verbatim source appended after the imports
 	hasGuard  bool     // pub fn guard<mod>(cb: fn() -> null): calls cb inside try, catches what it throws, then uses its own global and function
 }
@@ -54,6 +55,7 @@ type c15Graph struct {
 	illegal  string    // "" or the one way in which the graph is illegal
 	overlap  string    // none | fn | global | both
 	mainBody []string  // statements of main.main (calls, prints)
+	offenders []string // illegal kind 12: the modules that each contain the illegal import
 }
 
 func (g *c15Graph) mod(name string) *c15Mod {
@@ -533,6 +535,31 @@ func c15Gen(seed int, illegal int) *c15Graph {
 			main.addImport(via.name, "orig")
 			g.illegal = "reexported-function"
 		}
+	case 12: // the same illegal import, at the same position, in two modules: each of them is reported
+		for len(g.mods) < 3 {
+			g.mods = append(g.mods, &c15Mod{name: []string{"mx", "my"}[len(g.mods)-1], pubGlob: map[string]bool{}, fns: []c15Fn{{name: "only" + []string{"mx", "my"}[len(g.mods)-1], pub: true}}})
+		}
+		vault := &c15Mod{name: "mv", pubGlob: map[string]bool{}, fns: []c15Fn{{name: "hid", pub: false}, {name: "open", pub: true}}}
+		g.mods = append(g.mods, vault)
+		what := []string{"import { hid } from mv;\n", "import { nosuch } from mv;\n", "import { q } from nosuchmodule;\n"}[r.Intn(3)]
+		for _, m := range []*c15Mod{g.mods[1], g.mods[2]} {
+			m.first = what
+			g.offenders = append(g.offenders, m.name)
+			// main reaches both
+			reached := false
+			for _, from := range main.impOrder {
+				reached = reached || from == m.name
+			}
+			if !reached {
+				for _, f := range m.fns {
+					if f.pub {
+						main.addImport(m.name, f.name)
+						break
+					}
+				}
+			}
+		}
+		g.illegal = "same-illegal-import-in-two-modules"
 	case 11: // a builtin module has the value but no type of that name; a library imports the value first
 		lib.extra += fmt.Sprintf("import { assert_eq } from testing;\npub fn chk%s() { assert_eq(1, 1); }\n", lib.name)
 		main.addImport(lib.name, "chk"+lib.name)
@@ -566,6 +593,7 @@ func (g *c15Graph) sources() Program {
 	p := Program{Entry: "main", Modules: map[string]string{}}
 	for _, m := range g.mods {
 		var b strings.Builder
+		b.WriteString(m.first)
 		for _, tm := range m.typeFirst {
 			fmt.Fprintf(&b, "import { type T%s } from %s;\n", tm, tm)
 		}
@@ -660,6 +688,10 @@ func (g *c15Graph) sources() Program {
 				case "closure":
 					mod, gn, _ := strings.Cut(arg, ":")
 					fmt.Fprintf(&b, "    let c%s%s = mk%s%s();\n    println(\"closure\", \"%s.%s\", c%s%s());\n    println(\"closure\", \"%s.%s\", c%s%s());\n", gn, mod, gn, mod, mod, gn, gn, mod, mod, gn, gn, mod)
+				case "call-show":
+					fmt.Fprintf(&b, "    show%s();\n", arg)
+				case "assign-import":
+					fmt.Fprintf(&b, "    lim = \"set-by-main\";\n    cap = 30;\n    println(\"main sees\", lim, cap);\n")
 				case "catch":
 					fmt.Fprintf(&b, "    try {\n        boom%s();\n        println(\"not reached\");\n    } catch e {\n        println(\"main caught\", e.message);\n", arg)
 					g.emitMainOwn(&b, "        ", "in catch")
@@ -761,6 +793,14 @@ func (g *c15Graph) expected() []string {
 				vals[mod+"."+gn] += "+"
 				out = append(out, fmt.Sprintf("closure %s.%s %s", mod, gn, vals[mod+"."+gn]))
 			}
+		case "call-show":
+			if _, ok := vals[arg+".lim"]; !ok {
+				vals[arg+".lim"], vals[arg+".cap"] = arg+".lim", "20"
+			}
+			out = append(out, fmt.Sprintf("%s.show %s %s", arg, vals[arg+".lim"], vals[arg+".cap"]))
+		case "assign-import":
+			vals[arg+".lim"], vals[arg+".cap"] = "set-by-main", "30"
+			out = append(out, "main sees set-by-main 30")
 		case "catch":
 			m := g.mod(arg)
 			if m.boom == "-" {
@@ -796,6 +836,22 @@ func runC15(t *testing.T, spec RunSpec) *Verdict {
 	v := &Verdict{}
 	g := c15Gen(spec.P("g", 0), spec.P("illegal", 0))
 	backend := spec.P("backend", 0)
+	if backend == 0 && g.illegal == "" && spec.P("illegal", 0) == 0 && spec.P("g", 0)%2 == 0 {
+		// VM only: an imported global is the defining module's global (one storage). When the importer
+		// assigns it, the defining module's functions see the new value. (The interpreter copies imported
+		// globals; which of the two is right is not this property's business, so only the VM is asked.)
+		lib := g.mods[1]
+		lib.extra += fmt.Sprintf("pub let lim = \"%s.lim\";\npub let cap = 20;\npub fn show%s() { println(\"%s.show\", lim, cap); }\n", lib.name, lib.name, lib.name)
+		g.mods[0].addImport(lib.name, "lim")
+		g.mods[0].addImport(lib.name, "cap")
+		g.mods[0].addImport(lib.name, "show"+lib.name)
+		at := len(g.mainBody)
+		if at > 0 && strings.HasPrefix(g.mainBody[at-1], "spawn:") {
+			at--
+		}
+		ins := []string{"call-show:" + lib.name, "assign-import:" + lib.name, "call-show:" + lib.name}
+		g.mainBody = append(g.mainBody[:at], append(ins, g.mainBody[at:]...)...)
+	}
 	bname := []string{"vm", "interp"}[backend]
 	prog := g.sources()
 	failAt := spec.F("lookup_fail_at", 0)
@@ -848,6 +904,14 @@ func runC15(t *testing.T, spec RunSpec) *Verdict {
 	case g.illegal != "":
 		if !hasErr {
 			v.fail(P, "wrong-result", "illegal-import-diagnosed", g.illegal+"/"+bname, fmt.Sprintf("graph is illegal (%s) but no error diagnostic was reported; diagnostics: %q", g.illegal, clip(po.Diags)))
+		} else if len(g.offenders) > 0 {
+			files := c15ErrorFiles(po.Diags)
+			for _, m := range g.offenders {
+				if !files[m] {
+					v.fail(P, "wrong-result", "illegal-import-diagnosed", g.illegal+":per-module/"+bname, fmt.Sprintf("modules %v each contain an illegal import, but no error diagnostic is located in %s; diagnostics: %q", g.offenders, m, clip(po.Diags)))
+					break
+				}
+			}
 		} else if strings.HasPrefix(g.illegal, "cycle") || g.illegal == "self-import" {
 			// "a cyclic import is reported": some error diagnostic has to be about the cycle. A cycle
 			// always comes with incidental errors (items of a half-analysed module are "not found");
@@ -902,6 +966,23 @@ func c15CycleReported(diags string) bool {
 	return false
 }
 
+// c15ErrorFiles: the files in which error diagnostics are located.
+func c15ErrorFiles(diags string) map[string]bool {
+	out := map[string]bool{}
+	for _, l := range strings.Split(diags, "\n") {
+		if !strings.HasPrefix(l, fmt.Sprintf("%d|", errorLevel)) {
+			continue
+		}
+		f := strings.Split(l, "|")
+		if len(f) >= 3 {
+			if i := strings.IndexByte(f[2], ':'); i > 0 {
+				out[f[2][:i]] = true
+			}
+		}
+	}
+	return out
+}
+
 func c15FirstError(diags string) string {
 	for _, l := range strings.Split(diags, "\n") {
 		if strings.HasPrefix(l, fmt.Sprintf("%d|", errorLevel)) {
@@ -949,7 +1030,7 @@ func planC15(t *testing.T, tier string, seed uint64) ([]RunSpec, error) {
 		gseed := int(simrt.Mix(seed, uint64(gi)) % 1000000)
 		for backend := 0; backend < 2; backend++ {
 			add(map[string]int{"g": gseed, "backend": backend, "illegal": 0}, nil, orders)
-			ill := 1 + gi%11
+			ill := 1 + gi%12
 			add(map[string]int{"g": gseed, "backend": backend, "illegal": ill}, nil, 1+orders/4)
 			if gi%4 == 1 {
 				add(map[string]int{"g": gseed, "backend": backend, "illegal": 100}, nil, 1+orders/2)
